@@ -50,7 +50,7 @@ type program struct {
 	probes     []*probeSpec
 	assign     []int // submitter goroutine of every top-level task
 	failing    int
-	syntax     int // failing commands that are malformed lines
+	syntax     int // failing commands that leave no log entry of their own: malformed lines, refused nested submissions
 	bogus      int
 	nested     int
 }
@@ -102,6 +102,10 @@ func genProgram(rng *rand.Rand, kind string) *program {
 	pWait := []float64{0.25, 0.45, 0.7}[rng.Intn(3)]
 	pFail := []float64{0, 0, 0.15, 0.35}[rng.Intn(4)]
 	pNested := []float64{0, 0.12, 0.3}[rng.Intn(3)]
+	failKinds := []string{"ret", "append", "ret", "append", "syntax"}
+	if rng.Intn(7) == 0 { // now and then a program whose failures are all malformed lines
+		failKinds, pFail = []string{"syntax"}, 0.6
+	}
 	bogusAt := -1
 	if rng.Intn(6) == 0 {
 		bogusAt = rng.Intn(n)
@@ -154,6 +158,7 @@ func genProgram(rng *rand.Rand, kind string) *program {
 				}
 				if rng.Intn(12) == 0 {
 					p.bogus++
+					p.syntax++
 					nt.Bogus = "unknown"
 					nt.Waits = append(nt.Waits, "ghost")
 					nt.waitIdx = append(nt.waitIdx, -1)
@@ -166,7 +171,7 @@ func genProgram(rng *rand.Rand, kind string) *program {
 				}
 				if rng.Float64() < pFail {
 					fp := nt.Body[rng.Intn(len(nt.Body))].Probe
-					fp.Fail = []string{"ret", "append", "ret", "append", "syntax"}[rng.Intn(5)]
+					fp.Fail = failKinds[rng.Intn(len(failKinds))]
 					if fp.Fail == "syntax" {
 						p.syntax++
 					}
@@ -187,7 +192,7 @@ func genProgram(rng *rand.Rand, kind string) *program {
 				}
 			}
 			fp := own[rng.Intn(len(own))]
-			fp.Fail = []string{"ret", "append", "ret", "append", "syntax"}[rng.Intn(5)]
+			fp.Fail = failKinds[rng.Intn(len(failKinds))]
 			if fp.Fail == "syntax" {
 				p.syntax++
 			}
